@@ -78,8 +78,9 @@ CLAIMS = {
          "terminates, fails exactly when the input is wider than maxWidth and then writes nothing, sets the width, and gives the empty tree the "
          "hash of the empty string; InclusionProof never panics for ANY index (a negative index was a defect, repaired), terminates, fails exactly for "
          "indices outside [0, width), returns a fresh proof with Leaf/Width set and fewer terms than leaves (one index obligation excluded: solver budget). "
+         "ahtree rollback: a successful ResetSize to a smaller size leaves exactly newSize commit-log entries, nodesUpto(newSize) digests (nodesUpto as an uninterpreted function) and newSize as the synced frontier, whatever the sizes were before. "
          "NOT decided: that the levels BuildWith computes equal the reference construction (contract written, does not discharge within budget), the ahtree "
-         "generators (Append, inclusion/consistency proofs, ResetSize, OpenWith).",
+         "generators (Append, inclusion/consistency proofs, OpenWith).",
          "DESIGN.md 3 (C08)"),
  "C09": ("Integrity-checked read paths: readValueAt returns a nil error (without skipIntegrityCheck) only if it filled the whole buffer and the "
          "SHA-256 of the bytes equals the expected hash, on every return path incl. the cache path; ReadValue / valueRef.Resolve return a value only "
